@@ -395,9 +395,12 @@ impl<'a, R: RealNumberInternalTrait> Interpreter<'a, R> {
             Primitive::String(string) => Value::String(string.clone()),
             Primitive::Boolean(value) => Value::Boolean(*value),
             Primitive::Integer(value) => Value::Number(Number::Integer(*value)),
-            Primitive::Real(number_literal) => Value::Number(Number::Real(
-                R::from(number_literal.parse::<f64>().unwrap()).unwrap(),
-            )),
+            // parsed directly in the precision of R: going through f64 rounds twice, so that
+            // the printed form of some binary32 values read back as a neighbouring value
+            Primitive::Real(number_literal) => match number_literal.parse::<R>() {
+                Ok(real) => Value::Number(Number::Real(real)),
+                Err(_) => return error!(SyntaxError::UnrecognizedToken),
+            },
             Primitive::Rational(a, b) => {
                 Value::Number(Number::normalized_ratio(*a as i128, *b as i128))
             }
